@@ -447,14 +447,14 @@ static struct Register {
 	Register() {
 		Cfg c;
 #if SEL(0)
-		addUnit<QHarness<MT> >("C14/HeterEventQueue/multi", 0, c, 5, 7);
+		addUnit<QHarness<MT> >("C14/HeterEventQueue/multi", 0, c, 5, 8);
 #endif
 #if SEL(1)
-		addUnit<QHarness<ST> >("C14/HeterEventQueue/single", 0, c, 4, 7);
+		addUnit<QHarness<ST> >("C14/HeterEventQueue/single", 0, c, 4, 8);
 #endif
 #if SEL(2)
-		addUnit<LHarness<MT, false> >("C14/HeterCallbackList/multi", 0, c, 5, 8);
-		addUnit<LHarness<ST, true> >("C14/HeterEventDispatcher/single", 0, c, 4, 6);
+		addUnit<LHarness<MT, false> >("C14/HeterCallbackList/multi", 0, c, 5, 10);
+		addUnit<LHarness<ST, true> >("C14/HeterEventDispatcher/single", 0, c, 4, 7);
 #endif
 #if SEL(3)
 		{
